@@ -21,6 +21,15 @@ def run(tier, rep):
         "positions: every byte for inputs up to 500 (thorough 4200) bytes, sampled beyond; delivery whole-buffer and 1-byte",
         "results before the fault are compared on (class, output bytes); messages carry positions that legitimately differ",
     ]
+    # design level: with the reader's failure classified as non-continuable the latch makes it terminal at once;
+    # classified as continuable (what the legacy csv reader did) TLC exhibits the endless run of per-record failures
+    r = vlib.tlc("MC_Transform", "MC_Transform.cfg", consts={"MaxLen": "3", "MaxCalls": "6", "EmitCases": "FALSE", "FaultClass": '"fatal"'}, timeout=3000)
+    rep.add_tlc("MC_Transform(iofail classified fatal)", r)
+    if not vlib.tlc_ok(r, "MC_Transform"):
+        raise vlib.Inconclusive("Transform.tla violates %s: specification problem" % r.violated)
+    r2 = vlib.tlc("MC_Transform", "MC_Transform.cfg", consts={"MaxLen": "2", "MaxCalls": "5", "EmitCases": "FALSE", "FaultClass": '"cont"'}, timeout=3000)
+    rep.add_tlc("MC_Transform(iofail classified continuable)", r2)
+    rep.notes.append("latch model with a reader failure classified continuable: FaultIsTerminal %s" % ("violated, as expected" if r2.violated else "holds"))
     tr = os.path.join(vlib.scratch(), "c16.trace.ndjson")
     recs, _ = vlib.run_vh(["c16-drive", tr] + (["4200", "300", "big"] if thorough else ["500", "40"]), timeout=3400)
     handle(rep, recs)
